@@ -1,5 +1,6 @@
 import OpcuaModel.Model.SrvRobust
 import OpcuaModel.Model.SrvHandlersLemmas
+import OpcuaModel.Model.SrvNotify
 /-
   Helper lemmas for Props/C29 (not property statements).
 -/
@@ -248,3 +249,55 @@ theorem newItems_sub (next sub n : Nat) (it : Item) (h : it ∈ newItems next su
     · exact ih (next + 1) h
 
 end Opcua.Srv
+
+namespace Opcua.Notify
+open Opcua.Gen.SrvRobust
+
+/-- the dispatcher is blocked in the send and nobody will ever receive -/
+def stuck (s : NState) : Bool := s.blocked && s.consumer != .running
+
+theorem stuck_step (s : NState) (e : Ev) (h : stuck s = true) : stuck (stepN s e).1 = true := by
+  unfold stuck at *
+  rw [Bool.and_eq_true] at h
+  obtain ⟨hb, hc⟩ := h
+  cases e <;> cases hcons : s.consumer <;> simp_all [stepN]
+
+theorem stuck_unanswered (s : NState) (h : stuck s = true) :
+    (stepN s .write).2 = false ∧ (stepN s .request).2 = false := by
+  unfold stuck at h
+  rw [Bool.and_eq_true] at h
+  simp [stepN, h.1]
+
+theorem stuck_run (s : NState) (l : List Ev) (h : stuck s = true) : stuck (runN s l).1 = true := by
+  induction l generalizing s with
+  | nil => exact h
+  | cons e rest ih =>
+    unfold runN
+    exact ih (stepN s e).1 (stuck_step s e h)
+
+theorem runN_append (s : NState) (l1 l2 : List Ev) :
+    runN s (l1 ++ l2) = ((runN (runN s l1).1 l2).1, (runN s l1).2 ++ (runN (runN s l1).1 l2).2) := by
+  induction l1 generalizing s with
+  | nil => simp [runN]
+  | cons e rest ih => simp [runN, ih]
+
+theorem fill (s : NState) (k : Nat) (hb : s.blocked = false) (hr : s.registered = true)
+    (hk : s.queued + k ≤ notifyChanCap) :
+    runN s (List.replicate k .write) = ({ s with queued := s.queued + k }, List.replicate k true) := by
+  have hf : (notifySendUnderLock && setAttributeNotifiesInline) = true := by decide
+  induction k generalizing s with
+  | zero => simp [runN]
+  | succ k ih =>
+    have hlt : s.queued < notifyChanCap := by omega
+    have hstep : stepN s .write = ({ s with queued := s.queued + 1 }, true) := by
+      simp [stepN, hb, hr, hf, hlt]
+    rw [List.replicate_succ, runN, hstep]
+    have hih := ih { s with queued := s.queued + 1 } hb hr (by show s.queued + 1 + k ≤ notifyChanCap; omega)
+    show ((runN { s with queued := s.queued + 1 } (List.replicate k Ev.write)).1,
+          true :: (runN { s with queued := s.queued + 1 } (List.replicate k Ev.write)).2) = _
+    rw [hih]
+    have : s.queued + 1 + k = s.queued + (k + 1) := by omega
+    simp [List.replicate_succ, this]
+
+end Opcua.Notify
+
